@@ -625,6 +625,10 @@ inductive Op
   /-- the application assigns `conn.recordSize = n` between operations -/
   | setSizeA (n : Nat)
   | setSizeB (n : Nat)
+  /-- `conn.unread(b)` with `b` = the last `k` bytes the application was handed (peek and push back):
+      `_readBuffer = b + _readBuffer` -/
+  | unreadA (k : Nat)
+  | unreadB (k : Nat)
   | readA (max : Option Nat) (min : Nat)
   | readB (max : Option Nat) (min : Nat)
 
@@ -648,6 +652,12 @@ def step {Kab Kba : Codec} (c : Conn Kab Kba) : Op → Conn Kab Kba
     { c with b := r.1, ba := c.ba ++ r.2.1,
              writtenB := if r.2.2 = .done then c.writtenB ++ d else c.writtenB,
              failed := c.failed || r.2.2 != .done }
+  | .unreadA k =>
+    { c with a := { c.a with buf := c.deliveredA.drop (c.deliveredA.length - k) ++ c.a.buf },
+             deliveredA := c.deliveredA.take (c.deliveredA.length - k) }
+  | .unreadB k =>
+    { c with b := { c.b with buf := c.deliveredB.drop (c.deliveredB.length - k) ++ c.b.buf },
+             deliveredB := c.deliveredB.take (c.deliveredB.length - k) }
   | .setSizeA n => { c with a := { c.a with recordSize := recordSize n c.a.sendLimit } }
   | .setSizeB n => { c with b := { c.b with recordSize := recordSize n c.b.sendLimit } }
   | .readA mx mn =>
